@@ -6,6 +6,7 @@ package c18
 import (
 	"bytes"
 	"encoding/json"
+	"errors"
 	"fmt"
 	"strings"
 	"testing"
@@ -87,10 +88,19 @@ func ingestFields(r *model.IngestRequest) string {
 	return fmt.Sprintf("mh=%x ctx=%x md=%x addrs=%v", []byte(r.Multihash), r.ContextID, r.Metadata, r.Addrs)
 }
 
+// errRequestReturnedWithError marks a reader that rejected an envelope and
+// handed the request inside it to the caller all the same.
+var errRequestReturnedWithError = errors.New("the reader returned an error together with the decoded request")
+
 var readers = []reader{
 	{"ingest", func(b []byte) (peer.ID, string, error) {
 		r, err := model.ReadIngestRequest(b)
 		if err != nil {
+			if r != nil {
+				// "returns the request only if ...": a rejected envelope
+				// yields no request
+				return "", "", fmt.Errorf("%w: %v (request for provider %s with addresses %v)", errRequestReturnedWithError, err, r.ProviderID, r.Addrs)
+			}
 			return "", "", err
 		}
 		return r.ProviderID, ingestFields(r), nil
@@ -98,6 +108,9 @@ var readers = []reader{
 	{"register", func(b []byte) (peer.ID, string, error) {
 		r, err := model.ReadRegisterRequest(b)
 		if err != nil {
+			if r != nil {
+				return "", "", fmt.Errorf("%w: %v (request of peer %s)", errRequestReturnedWithError, err, r.PeerID)
+			}
 			return "", "", err
 		}
 		var a []string
@@ -176,6 +189,10 @@ func TestCheck(t *testing.T) {
 		}
 		if err == nil {
 			r.Violation(rdr+":accepted:"+sigAccept, key, fmt.Sprintf("%s request accepted although %s (named provider %s)", rdr, why, named), nil)
+			return
+		}
+		if errors.Is(err, errRequestReturnedWithError) {
+			r.Violation(rdr+":rejected-request-still-returned:"+sigAccept, key, fmt.Sprintf("%s (the envelope: %s)", err, why), nil)
 			return
 		}
 		// a rejection is not remembered as anything else: the same bytes again, to
